@@ -545,7 +545,7 @@ pub fn test(r: &RawTree, ev: &mut Ev, opts: &ModelOpts, tag: &str) -> Result<(),
 pub fn run(ctx: &Ctx) -> Result<Ev, String> {
     let opts = ModelOpts { devices: model::model_devices() };
     let shards = 32usize;
-    let per = (if ctx.thorough { 60_000 } else { 3_000 } / shards).max(1) as u32;
+    let per = (if ctx.thorough { 150_000 } else { 12_000 } / shards).max(1) as u32;
     let seed = ctx.seed;
     let total = par::run_shards("C11", shards, |s| par::prop_shard("C11", seed, s, per, &raw_tree(), |c, ev| test(c, ev, &opts, &format!("{}", s))));
     if total.has_violation() {
